@@ -140,13 +140,25 @@ structure Route where
   rid : Nat
 deriving DecidableEq, Repr
 
+/-- the pattern text a registration stands for: the plain concatenation of the group prefixes and the path;
+for a route of a mounted sub-router the mount prefix — without its trailing slash, with a leading slash —
+followed by that text, the sub-router's root route `/` being the prefix itself -/
+def regText (g : Reg) : Bytes :=
+  let sub := g.groups.foldr (· ++ ·) g.path
+  match g.mount with
+  | none => sub
+  | some pre =>
+    let p := if pre.getLast? = some '/' then pre.dropLast else pre
+    let p := if p.head? = some '/' then p else '/' :: p
+    if sub = ['/'] then p else p ++ sub
+
 /-- The registered routes as the oracle reads the script: route `i` is registration `i`, its pattern
-text is the plain concatenation of the group prefixes and the path, parsed by `parsePattern`.
+text is `regText`, parsed by `parsePattern`.
 `none` when some pattern is outside the vocabulary of the property. -/
 def specRoutesFrom : Nat → List Reg → Option (List Route)
   | _, [] => some []
   | i, g :: gs =>
-    let text := g.groups.foldr (· ++ ·) g.path
+    let text := regText g
     match parsePattern text, specRoutesFrom (i + 1) gs with
     | some p, some rest => some ({ method := g.method, text := text, pat := p, cons := g.cons, rid := i } :: rest)
     | _, _ => none
